@@ -84,6 +84,16 @@ func ParseOp(query string, vars map[string]any) (*Op, error) {
 				if err := dirs(s, x.Directives); err != nil {
 					return nil, err
 				}
+				if x.Name == "boomArg" {
+					// the probe's failing input unmarshaler (scalar Boom): "err" / "panic"
+					if a := x.Arguments.ForName("b"); a != nil {
+						if v, err := a.Value.Value(vars); err == nil {
+							if t, ok := v.(string); ok && (t == "err" || t == "panic") {
+								s.AFault, s.AName = t, "b"
+							}
+						}
+					}
+				}
 				sub, err := conv(x.SelectionSet)
 				if err != nil {
 					return nil, err
